@@ -64,6 +64,8 @@ pub fn run_all(ctx: &mut Ctx, stream: &str) {
 			Generic<u8, u16>, Generic<String, TwinU32>, Vec<Mixed>, Option<Named>, Box<Chain>, Vec<Skipper>, BTreeMap<u8, Mixed>,
 			MelEnum, MelGen<u32>, MelGen<u64>, MelGen<u8>, Option<MelEnum>, [MelGen<u16>; 2], (MelEnum, CompactFields), Box<CompactFields>,
 			Compact<Wrapped>, Box<Transparent>, [Transparent; 2], UnitStruct,
+			GenEnum<u16, NotCodec, u32>, GenEnum<Vec<u8>, NotCodec, u64>, GenEnum<TwinU32, u8, u8>, Vec<GenEnum<bool, NotCodec, u16>>,
+			GenStruct<u32, NotCodec>, GenStruct<String, u8>,
 			TransCompact, Box<TransCompact>, [TransCompact; 2], Rc<TransCompact>, Vec<Box<[TransCompact; 2]>>, Arc<TransCompact>,
 			TransEncodedAs, Box<TransEncodedAs>, [TransEncodedAs; 3], Option<Box<(u8, TransEncodedAs)>>,
 			TransSkip, Box<TransSkip>, [TransSkip; 2]);
@@ -104,6 +106,8 @@ pub fn run_all(ctx: &mut Ctx, stream: &str) {
 		TransEncodedAs, Box<TransEncodedAs>, [TransEncodedAs; 3], Option<Box<(u8, TransEncodedAs)>>,
 		TransSkip, Box<TransSkip>, [TransSkip; 2],
 		Vec<Box<u64>>, [Box<i64>; 3], VecDeque<Rc<u64>>, Vec<Arc<f64>>, Vec<Rc<u32>>, [Arc<u16>; 2], BinaryHeap<Box<u64>>, LinkedList<Rc<i64>>, Vec<Cow<'static, u64>>,
+		GenEnum<u16, NotCodec, u32>, GenEnum<Vec<u8>, NotCodec, u64>, GenEnum<TwinU32, u8, u8>, Vec<GenEnum<bool, NotCodec, u16>>, Box<GenEnum<u8, NotCodec, u32>>,
+		GenStruct<u32, NotCodec>, GenStruct<String, u8>, Option<GenStruct<TwinU8, NotCodec>>,
 		Result<u8, u64>, Result<(), u8>, Result<(), [u8; 32]>, Option<Result<u8, (u16, u16)>>, Result<u64, u8>, [Result<bool, u32>; 2],
 		Option<(u8, u16)>, Result<u32, (u8, u8)>, [(u8, bool); 3], Range<(u8, u8)>, Box<[u16; 4]>, Arc<(u8, u64)>, Rc<(u8, u64)>,
 	);
